@@ -351,7 +351,7 @@ def check_property(pid, tier, seed, replay=None):
                 for i in ids[k]:
                     rec = {"engine": es.get("name", es["engine"]), "seed": rseed, "tier": tier, "case_id": i,
                            "eval": name, "case": byid.get(i)}
-                    (spec_fail if "spec" in name else mismatch).append(rec)
+                    (spec_fail if ("spec" in name or name.startswith("sem_")) else mismatch).append(rec)
 
     if hok and cok:
         run_round(seed, 1, "r0")
